@@ -271,7 +271,9 @@ def age_field(f):
     # the same component-to-axis mapping, re-assigned with its keys in another order (a dict's insertion order is
     # not part of the mapping; code that pairs components with axes by position in the dict is wrong)
     vm = dict(f.vdim_mapping)
-    if len(vm) > 1 and (_state["count"] >> 1) & 1:
+    tg = [v for v in vm.values() if v is not None]
+    # (two labels mapped onto ONE axis: the reversed mapping keeps the last key, so there the order is part of the state)
+    if len(vm) > 1 and (_state["count"] >> 1) & 1 and len(set(tg)) == len(tg):
         items = list(vm.items())
         items = items[1:] + items[:1] if _state["count"] & 4 else items[::-1]
         f.vdim_mapping = dict(items)
